@@ -365,6 +365,11 @@ def factorized(A):
     return _Factorization(A)
 
 
+def spilu(A, *a, **kw):
+    # an incomplete factorisation is a preconditioner, not a solve of the system: nothing exact can be said about its result
+    raise Unsupported("scipy.sparse.linalg.spilu (incomplete LU: not an exact solve)")
+
+
 def solve_banded(l_and_u, ab, b, **kw):
     raise Unsupported("scipy.linalg.solve_banded")
 
@@ -373,7 +378,7 @@ class _Linalg:
     bicgstab = staticmethod(bicgstab)
     spsolve = staticmethod(spsolve)
     splu = staticmethod(splu)
-    spilu = staticmethod(splu)
+    spilu = staticmethod(spilu)
     factorized = staticmethod(factorized)
 
 
